@@ -1017,6 +1017,10 @@ def main(prop, tier, seed):
             # the models the repository ships (tests' resources, the manual's examples), identified against their own functions
             from engines import examples_trace
             examples_trace.validate(run, layout_trace.TRACE_TARGETS[prop], tier)
+        if prop in ("C03", "C04") and not run.machinery_errors:
+            # where the element order and the declared / zero-filled functions of a potable model come from (spec/Builder.tla)
+            from engines import builder
+            builder.validate(run, prop == "C04", tier)
         if prop in ("C04", "C05") and not run.machinery_errors:
             calibrate_eeam(run)
         if tier == "thorough" and prop in ("C01", "C03", "C05"):
